@@ -91,14 +91,6 @@ end
 /-- `D` is an exact diff for the data tree `A` -/
 def exactDiff (S : Schema) (A D : List DNode) : Bool := exactK S none A false D
 
-mutual
-/-- the diff touches no user-ordered node (at any depth, inside created / deleted subtrees as well) -/
-def noUserOrdN (S : Schema) : DNode → Bool
-  | .inner s _ _ ks => !S.isUserOrd s && noUserOrdL S ks
-  | .term s _ _ _ => !S.isUserOrd s
-def noUserOrdL (S : Schema) : List DNode → Bool
-  | [] => true
-  | x :: xs => noUserOrdN S x && noUserOrdL S xs
-end
+-- `noUserOrdN` / `noUserOrdL` (the diff touches no user-ordered node) are defined in Diff/Reverse.lean
 
 end LyModel.Diff
